@@ -11,7 +11,7 @@ Lcg(x) == (x * 1021 + 24691) % 1048576
 RECURSIVE LcgN(_, _)
 LcgN(x, n) == IF n = 0 THEN x ELSE LcgN(Lcg(x), n - 1)
 Pick(seq, x) == seq[((x \div 16) % Len(seq)) + 1]
-Start(seed, salt, r) == LcgN((seed * 7919 + salt * 611953 + r * 104729) % 1048576, 3)
+Start(seed, salt, r) == LcgN(((((seed % 100000) * 7919) % 1048576) + (((salt % 1000) * 611953) % 1048576) + (((r % 10007) * 104729) % 1048576) + ((r \div 10007) * 31)) % 1048576, 3)
 
 RECURSIVE Pow(_, _)
 Pow(b, e) == IF e = 0 THEN 1 ELSE b * Pow(b, e - 1)
